@@ -52,7 +52,12 @@ func chunkerSpace(e *harness.Env) {
 						if osz == 0 && osent == 0 {
 							continue
 						}
-						desc := fmt.Sprintf("space=chunker %s layout=%s max=%d ovsize=%d ovsent=%d", t.part(), layout, max, osz, osent)
+						// derived feature: does the paragraph hold a stretch without sentence punctuation longer than the limit?
+						sg := "lemax"
+						if maxRunWithout(t.s, ".!?") > max {
+							sg = "gtmax"
+						}
+						desc := fmt.Sprintf("space=chunker %s layout=%s max=%d sentgap=%s ovsize=%d ovsent=%d", t.part(), layout, max, sg, osz, osent)
 						if !e.Own(desc) {
 							continue
 						}
